@@ -40,33 +40,9 @@ pub fn cells(tier: Tier) -> Vec<CellPlan> {
         v.push(plan(c, dev, 2.0));
     }
     // Three clients with different last update ticks (whitelist): a broadcast is stamped per client.
-    {
-        let mut cfg = Cfg::default();
-        cfg.events = true;
-        cfg.vis = Vis::Whitelist;
-        cfg.clients = vec![1200; 3];
-        let c = EvCell {
-            name: "c04-ticks-3c".into(),
-            property: "C04",
-            cfg,
-            connect_at_start: vec![0, 1, 2],
-            init: vec![Op::Spawn(0, 1 << TA), Op::Vis(0, 0, true), Op::Vis(1, 0, true), Op::Vis(2, 0, true), Op::Spawn(1, 1 << TA)],
-            alphabet: vec![
-                EvOp::Nop,
-                EvOp::World(Op::Vis(1, 1, true)),
-                EvOp::World(Op::Vis(2, 1, true)),
-                EvOp::World(Op::Vis(0, 1, true)),
-                EvOp::EmitS(SK::E1, Mode::Broadcast, None),
-                EvOp::EmitS(SK::EM, Mode::Broadcast, Some(0)),
-            ],
-            rounds: if q { 3 } else { 4 },
-            tick_choice: true,
-            env: EvEnv { hold_updates: 1, hold_events: false, reorder: false, drop_unreliable: false, hold_client_events: false, hold_mutations: false, hold_acks: false, update_latency: 0, update_batch: 0 },
-            oracles: EvOracles { c04: true, ..Default::default() },
-            closure_rounds: 4,
-        };
-        v.push(plan(c, 1, 2.0));
-    }
+    v.push(plan(ticks_3c("C04", 0, q), 1, 2.0));
+    // ... with the clients' update ticks on both sides of a varint size boundary (127 | 128)
+    v.push(plan(ticks_3c("C04", 125, q), 1, 1.0));
     // Update channel one and two rounds behind the event channels by default.
     for lat in [1u32, 2] {
         let mut cfg = Cfg::default();
@@ -121,6 +97,35 @@ pub fn cells(tier: Tier) -> Vec<CellPlan> {
         v.push(plan(c, 0, 1.0));
     }
     v
+}
+
+/// Three clients under a whitelist whose last update ticks differ; `offset` shifts the tick range.
+pub fn ticks_3c(property: &'static str, offset: u32, q: bool) -> EvCell {
+    let mut cfg = Cfg::default();
+    cfg.events = true;
+    cfg.vis = Vis::Whitelist;
+    cfg.clients = vec![1200; 3];
+    cfg.tick_offset = offset;
+    EvCell {
+        name: format!("{}-ticks-3c-off{offset}", property.to_lowercase()),
+        property,
+        cfg,
+        connect_at_start: vec![0, 1, 2],
+        init: vec![Op::Spawn(0, 1 << TA), Op::Vis(0, 0, true), Op::Vis(1, 0, true), Op::Vis(2, 0, true), Op::Spawn(1, 1 << TA)],
+        alphabet: vec![
+            EvOp::Nop,
+            EvOp::World(Op::Vis(1, 1, true)),
+            EvOp::World(Op::Vis(2, 1, true)),
+            EvOp::World(Op::Vis(0, 1, true)),
+            EvOp::EmitS(SK::E1, Mode::Broadcast, None),
+            EvOp::EmitS(SK::EM, Mode::Broadcast, Some(0)),
+        ],
+        rounds: if q { 3 } else { 4 },
+        tick_choice: true,
+        env: EvEnv { hold_updates: 1, hold_events: false, reorder: false, drop_unreliable: false, hold_client_events: false, hold_mutations: false, hold_acks: false, update_latency: 0, update_batch: 0 },
+        oracles: EvOracles { c04: true, c05: true, ..Default::default() },
+        closure_rounds: 4,
+    }
 }
 
 pub const RULE: &str = "histories of structural operations and emissions of dependent / mapped / independent events and triggers (before or after the spawn they reference, on tick and non-tick frames) x relative delays between the update channel (up to 3 pending messages) and the event channels with <= d deviations; at every delivery the client's update tick is compared with the last update message the server had sent before the event and every reference is resolved through the entity map; non-trivial = an event was emitted and observed";
